@@ -7,7 +7,7 @@ T10 = '_ZN11xercesc_4_010XMLChar1_019fgCharCharsTable1_0E'
 T11 = '_ZN11xercesc_4_010XMLChar1_119fgCharCharsTable1_1E'
 D = {'XERCES_VERIF_CHARBUF': 3, 'XERCES_VERIF_RAWBUF': 4}
 HARNESSES = [
- dict(name='getname', entry='harness_getname', srcs=['C01/getname.cpp'],
+ dict(name='getname', entry='harness_getname', srcs=['C01/getname.cpp', 'C01/appendstub.cpp'], cuts_everywhere=['_ZN11xercesc_4_09XMLBuffer6appendEPKDsm'],
       tus=['internal/XMLReader.cpp', 'framework/XMLBuffer.cpp', 'util/XMLUTF8Transcoder.cpp', 'util/XMLChar.cpp', 'util/BinInputStream.cpp', 'util/XMLString.cpp'],
       const_tables=[T10, T11], cuts=['_ZN11xercesc_4_09XMLString9binToTextE*', '_ZN11xercesc_4_09XMLString10sizeToTextE*'],
       defs={'all': dict(D)}, unwind=3, unwind_gentle=True, unwind_cap=10, timeout={'quick': 700, 'thorough': 1700}),
@@ -17,4 +17,3 @@ LEVEL_TEXT = ('Bounded model checking, with CBMC bounds/pointer/overflow checks 
 LEVEL_NOTE = ('NOT claimed: the scanners\' token dispatch, error resynchronisation, reader-stack ownership, content-spec teardown, DFA construction, TraverseSchema, RegxParser; termination beyond the loop bounds of the '
               'encoded kernels. Window 3/4 instead of 16K/48K (hook).')
 
-READY = False
